@@ -52,6 +52,12 @@ def cases(tier, seed):
         h = R.choice(sizes + [R.randrange(1, 800)])
         entry = R.choice(["tile_study_image", "builder", "subimage", "subimage"])
         out.append(dict(t="pix", fmt=fmt, mode=mode, w=w, h=h, entry=entry, seed=R.randrange(1 << 30)))
+    # histories: the directory already holds the tiles of an earlier image of the same size (the new image is undefined over
+    # whole tiles), or the StudyTiling object has already tiled an image of another mode
+    for i in range(30 if tier == "quick" else 400):
+        fmt, mode = combos[(i * 3) % len(combos)]
+        out.append(dict(t="pix", fmt=fmt, mode=mode, w=R.choice([513, 600, 700, 800]), h=R.choice([513, 520, 700]), entry=R.choice(["tile_study_image", "builder", "subimage"]),
+                        seed=R.randrange(1 << 30), prior=["same_dir", "same_tiling"][i % 2]))
     for i in range(8 if tier == "quick" else 60):
         out.append(dict(t="pix", fmt="png", mode=R.choice(["RGB", "RGBA"]), w=R.choice(sizes), h=R.choice(sizes), entry="cli", seed=R.randrange(1 << 30)))
         out.append(dict(t="pix", fmt="fits", mode="F32", w=R.choice(sizes), h=R.choice(sizes), entry="cli", seed=R.randrange(1 << 30)))
@@ -260,11 +266,41 @@ def case_pix(spec, workdir):
         cli.entrypoint(["tile-study", "--placeholder-thumbnail", "--outdir", out, src])
     else:
         pio = PyramidIO(out, default_format=fmt)
+        prior = spec.get("prior")
+        if prior == "same_dir" and mode in ("RGBA", "F32", "F64", "F16x3"):
+            # an earlier, fully defined image of the same size was tiled into this directory through the same entry point
+            arr_a = make_image(mode, w, h, spec["seed"] + 1)
+            img_a = Image.from_array(arr_a, default_format=fmt)
+            if entry == "tile_study_image":
+                tile_study_image(img_a, pio)
+            elif entry == "builder":
+                Builder(pio).tile_base_as_study(img_a)
+            else:
+                StudyTiling(canvas_w, canvas_h).compute_for_subimage(ox, oy, w, h).tile_image(img_a, pio)
+            # ... and the new image is undefined over (at least) one whole tile of the canvas that the old one populated
+            inside = [(tx, ty) for (tx, ty) in ref_study.tiles_for_rect(g["gx0"] + ox, g["gy0"] + oy, w, h)
+                      if tx * 256 >= g["gx0"] + ox and ty * 256 >= g["gy0"] + oy and (tx + 1) * 256 <= g["gx0"] + ox + w and (ty + 1) * 256 <= g["gy0"] + oy + h]
+            for (tx, ty) in R.sample(inside, min(len(inside), R.choice([1, 2]))):
+                x0, y0 = tx * 256 - g["gx0"] - ox, ty * 256 - g["gy0"] - oy
+                if mode == "RGBA":
+                    arr[y0:y0 + 256, x0:x0 + 256, 3] = 0
+                else:
+                    arr[y0:y0 + 256, x0:x0 + 256] = np.nan
+        shared_tiling = None
+        if prior == "same_tiling":
+            # the tiling object has been applied before, to an image of ANOTHER mode (a frame and its weight map, ...)
+            other = dict(F32="F64", F64="F32", I16="I32", I32="I16", U8="I16", RGB="RGBA", RGBA="RGB", F16x3="F32")[mode]
+            arr_a = make_image(other, w, h, spec["seed"] + 2)
+            shared_tiling = StudyTiling(canvas_w, canvas_h).compute_for_subimage(ox, oy, w, h) if entry == "subimage" else StudyTiling(w, h)
+            shared_tiling.tile_image(Image.from_array(arr_a), PyramidIO(os.path.join(workdir, "earlier"), default_format="npy"))
         # the image's own default format is independent of the pyramid's tile format (it may be unset, or of the other parity)
         img_fmt = R.choice([fmt, fmt, None, "fits" if fmt != "fits" else "npy", "png" if mode in ("RGB", "RGBA") and fmt != "png" else fmt])
         img = Image.from_array(arr, default_format=img_fmt)
         b = Builder(pio)
-        if entry == "tile_study_image":
+        if shared_tiling is not None:
+            shared_tiling.tile_image(img, pio)
+            (StudyTiling(canvas_w, canvas_h) if entry == "subimage" else shared_tiling).apply_to_imageset(b.imgset)
+        elif entry == "tile_study_image":
             tiling = tile_study_image(img, pio)
             tiling.apply_to_imageset(b.imgset)
         elif entry == "builder":
@@ -291,6 +327,13 @@ def case_pix(spec, workdir):
     else:
         canvas[gy0:gy0 + h, gx0:gx0 + w] = arr
     exp_tiles = ref_study.tiles_for_rect(gx0, gy0, w, h)
+    if spec.get("prior") == "same_dir":
+        def _any_defined(c):
+            if c.ndim == 3 and c.shape[2] == 4:
+                return bool((c[..., 3] != 0).any())
+            return bool((~np.isnan(c)).any()) if c.dtype.kind == "f" else True
+
+        exp_tiles = {(tx, ty) for (tx, ty) in exp_tiles if _any_defined(canvas[ty * 256:(ty + 1) * 256, tx * 256:(tx + 1) * 256])}
     L = g["levels"]
     ntiles = 0
     for ty in range(P // 256):
@@ -323,7 +366,7 @@ def case_pix(spec, workdir):
     if nfiles != len(exp_tiles):
         probs.append("%d tile files on disk, %d expected" % (nfiles, len(exp_tiles)))
     nontriv = len(exp_tiles) >= 2 or (w % 256) or (h % 256)
-    r = dict(counters={"pix_cases": 1, "tiles_read_back": ntiles, "pix_%s_%s" % (fmt, mode): 1, "entry_" + entry: 1}, nontrivial=bool(nontriv),
+    r = dict(counters={"pix_cases": 1, "pix_history_" + str(spec.get("prior")): 1, "tiles_read_back": ntiles, "pix_%s_%s" % (fmt, mode): 1, "entry_" + entry: 1}, nontrivial=bool(nontriv),
              sets=dict(fmt_mode=[[fmt, mode]]), sample=dict(spec=spec, tiles=len(exp_tiles), levels=L, url=info["url"]))
     if probs:
         r.update(status="violation", key="study-pixels:" + ("bottom-up" if fmt == "fits" else "top-down"), detail="; ".join(probs[:6]))
